@@ -141,6 +141,51 @@ INFO3 = {
  "C20-5": ("LeaseSet.Bytes() sizes its buffer from encryptionKey.Len() and signingKey.Len() before the nil checks", "zero value LeaseSet{} (also every failed ReadLeaseSet result) then Bytes() or Verify()"),
  "C20-6": ("EncryptedLeaseSet.Verify() inspects the last signature byte for RedDSA signatures before verifying", "failed-parse EncryptedLeaseSet with signature type 11 (>= 109 bytes of input) then Verify()"),
 }
+
+# round 4 (change 1: silent wrong result; change 2: error / edge path); patch k kept as <ID>-<k+6>
+INFO4 = {
+ "C01-7": ("NewKeyCertificate interns parsed key certificates in a package-level sync.Map keyed by the 7-byte header, ignoring payload bytes after the type codes", ">= 2 parses in one process of KEY certificates with the same types and the same declared length >= 5 but different extra payload bytes"),
+ "C01-8": ("parseTransportOptions matches the prefix 'warning parsing mapping', which also covers 'mapping length exceeds provided data': a partial options mapping is treated as complete", "standalone ReadRouterAddress with an options size field larger than the bytes that remain, the bytes present tiling into whole pairs"),
+ "C02-7": ("NewRouterInfo's createPublishedDate goes through NewDateFromUnix(publishedTime.Unix()): the millisecond part is dropped", "NewRouterInfo with a published time whose millisecond component is non-zero"),
+ "C02-8": ("ReadOfflineSignature calls ValidateStructure() on what it parsed: expires == 0 rejected", "offline-keys flag set and an offline expires field of exactly 0 (LeaseSet2, MetaLeaseSet, EncryptedLeaseSet)"),
+ "C03-7": ("ReadLeaseSet caches its whole input buffer as the wire form; Bytes() and Verify() use the cache", "any accepted legacy LeaseSet followed by extra bytes"),
+ "C03-8": ("parseEncryptionKeys checks numKeys*4 header bytes once up front; the per-key header check is dropped: slicing panics for later keys", "LeaseSet2 with >= 2 keys cut 0..3 bytes into the header of a key other than the first (at least 443 bytes left)"),
+ "C04-7": ("InitializationVector() decodes a 24-character value with base64 Decode straight into the [16]byte result (no bounds check): index out of range", "'i' option of exactly 24 base64-alphabet characters not ending in '=='"),
+ "C04-8": ("ConstructSigningPublicKey slices data[128-keySize:128] for every type: negative index for keys larger than 128 bytes", "KeyCertificate with signing type 3..6, ConstructSigningPublicKey(data) with len(data) > key size"),
+ "C05-7": ("LeaseSet2.Verify tries store types {0x03, 0x05} when the BLINDED flag is set", "signature by the right key over 0x05 || content on a LeaseSet2 carrying the BLINDED flag"),
+ "C05-8": ("RouterInfo.VerifySignature calls Validate() first and returns false when it fails (needs >= 1 address)", "correctly signed RouterInfo with zero addresses - an over-rejection: outside the statement of C05, which bounds success; reported by C06"),
+ "C06-7": ("same edit as C02-3 / C14-7 (parseRouterAddresses appends the address of one shared variable)", "RouterInfo with >= 2 different addresses after the wire"),
+ "C06-8": ("LeaseSet2 parser rejects a header whose expires offset is zero (rule copied from EncryptedLeaseSet)", "NewLeaseSet2 with expires offset 0: built, signed, verified, refused by ReadLeaseSet2"),
+ "C07-7": ("Destination.Equals compares type codes, keys and padding instead of Bytes(): certificate kind, length and extra payload no longer count", "NULL certificate versus KEY certificate (0,0) over the same key block; or two KEY certificates differing in extra payload"),
+ "C07-8": ("certificate end computed with data[offset+1]<<8 on a byte: the high byte of the length is lost", "identity whose KEY certificate declares a payload of 256 bytes or more, through ReadKeysAndCert"),
+ "C08-7": ("EncryptedLeaseSet keeps a view of the buffer and detaches on the first read (copy on first read)", "buffer overwritten before the first of EncryptedInnerData / Bytes / Verify / DecryptInnerData; a harness that snapshots first detaches the value"),
+ "C08-8": ("extractEncryptionKeyData copies only keys of a known type with the table length; others are returned as a view", "LeaseSet2 with a key of an unknown type or of a known type with another length"),
+ "C09-7": ("parseRouterInfoCore reads the identity with destination.ReadDestination and wraps it: RedDSA slips through", "RouterInfo whose identity declares (11, 0) or (11, 4)"),
+ "C09-8": ("NewRouterIdentityWithCompressiblePadding tests paddingSize <= 0 instead of < 0", "the pair (0, 0): DSA_SHA1 + ElGamal fill the block exactly"),
+ "C10-7": ("validateEncryptionKeys returns nil as soon as the first key is a well-formed X25519 key", "LeaseSet2 with >= 2 keys, first key X25519, a later key of a known type with the wrong length"),
+ "C10-8": ("NewKeyCertificate rejects a KEY certificate whose payload is longer than 4 bytes plus the excess key data its types need", "KEY certificate with known types and extra payload"),
+ "C11-7": ("serializeOnePair bound maxSerializedPairSize = 2*255+2 = 512 (true maximum 514): the pair is skipped silently", "pair with len(key)+len(value) >= 509"),
+ "C11-8": ("validateMappingInputData rejects only empty input: the one-byte input 00 is accepted as an empty mapping", "ReadMapping / NewMapping on exactly one zero byte"),
+ "C12-7": ("EncodeUint16/32/64 go through EncodeIntN(int(value), n) ignoring the error: zeros for values with the top bit set", "EncodeUint64(v >= 2^63), EncodeInt64(negative)"),
+ "C12-8": ("ReadDate's length guard replaced by ReadInteger + len == 0: 1..7 bytes accepted", "ReadDate / NewDate with 1..7 bytes"),
+ "C13-7": ("validateEncodedInput drops the multiple-of-8 check: over-padded base32 accepted", "aaaa======, aaaaa====, aaaaaaa==="),
+ "C13-8": ("DecodeStringNoPadding completes the final group by slicing a 6-character padding constant: [:7] panics", "alphabet-only input of length 1 mod 8"),
+ "C14-7": ("same edit as C02-3 (RouterInfo addresses alias the last one)", "RouterInfo with >= 2 different addresses through Bytes -> ReadRouterInfo"),
+ "C14-8": ("Mapping.Validate additionally requires valid UTF-8 in keys and values; no constructor checks that", "option value that is not well-formed UTF-8 (a raw static key in 's')"),
+ "C15-7": ("OfflineSignature.IsExpired compares int32(expires - uint32(now)) < 0 (wrap-aware)", "expires at least 2^31 seconds ahead of now"),
+ "C15-8": ("MetaLeaseSet parser rejects a header when published + uint32(expires) wraps", "published in [2^32-65535, 2^32-1] with a large enough offset"),
+ "C16-7": ("assembleBlindedDestination builds a fresh key certificate from the two type codes", "destination whose KEY certificate carries extra payload"),
+ "C16-8": ("parseDecryptedLeaseSet2 applies the EncryptedLeaseSet flag / expires rules to the inner LeaseSet2", "inner LeaseSet2 with the BLINDED flag or expires == 0"),
+ "C17-7": ("InitializationVector checks n := copy(result[:], iv); n != 16", "'i' value longer than 16 bytes: accepted and truncated"),
+ "C17-8": ("resolveHostIP pre-filter hasIPLiteralCharset allows a-f but not A-F", "IPv6 literal with an upper-case hex digit: Host() fails, HasValidHost() true"),
+ "C18-7": ("RouterInfo.VerifySignature remembers successes in a package-level sync.Map keyed by identity hash and published date", "genuine RouterInfo verified first, then a forged sibling with the same identity and date (no data race)"),
+ "C18-8": ("Mapping.Data() skips repeated keys and writes the cleaned list back through the shared pointer", "mapping with a repeated key (MappingValues.Add + ValuesToMapping); first Data() call rewrites the receiver"),
+ "C19-7": ("NewSignatureFromBytes reuses the reader's copy helper: len(data) < expected instead of !=, remainder discarded", "NewSignatureFromBytes with at least one byte more than the signature size"),
+ "C19-8": ("NewSignature rejects types whose signing key is 'unimplemented' (3, 4, 5, 6); ReadSignature and NewSignatureFromBytes accept them", "NewSignature(data, t) with t in {3,4,5,6}"),
+ "C20-7": ("LeaseSet2.Verify() skips verification for the all-zero placeholder signature; vacuously true for an empty one", "LeaseSet2 truncated at or after the minimum size, then Verify() on the returned value: nil"),
+ "C20-8": ("RouterAddressCount() / PeerSize() index i.Bytes()[0] behind the nil guard; NewInteger returns a non-nil empty Integer at end of input", "RouterInfo cut right after the published date or right after the last address"),
+}
+MISSED_FIRST_4 = ["C04-7", "C05-7", "C05-8", "C07-8", "C08-7", "C10-7", "C15-7", "C18-7", "C18-8"]
 MISSED_FIRST_2 = ["C05-4", "C06-3", "C07-4", "C09-3", "C10-4", "C15-3", "C17-3", "C18-4", "C19-3", "C19-4"]
 
 
@@ -160,15 +205,19 @@ def main():
     allinfo = dict(INFO)
     allinfo.update(INFO2)
     allinfo.update(INFO3)
+    allinfo.update(INFO4)
     for key in sorted(allinfo):
         pid, k = key.split("-")
         round2 = key in INFO2
         round3 = key in INFO3
+        round4 = key in INFO4
         if round2:
             k = str(int(k) - 2)
         if round3:
             k = str(int(k) - 4)
-        src = os.path.join(SRC, ("R3" if round3 else "R2" if round2 else "") + pid + "-out")
+        if round4:
+            k = str(int(k) - 6)
+        src = os.path.join(SRC, ("R4" if round4 else "R3" if round3 else "R2" if round2 else "") + pid + "-out")
         conf = os.path.join(src, "confirm%s.json" % k)
         if not os.path.exists(conf):
             continue
@@ -185,7 +234,7 @@ def main():
         if os.path.exists(os.path.join(src, "notes.md")):
             shutil.copy(os.path.join(src, "notes.md"), os.path.join(dst, "notes.md"))
         caught, missed, detail = [], [], {}
-        rp = os.path.join(SRC, "results3" if round3 else "results2" if round2 else "results", "%s-%s.json" % (pid, k))
+        rp = os.path.join(SRC, "results4" if round4 else "results3" if round3 else "results2" if round2 else "results", "%s-%s.json" % (pid, k))
         if os.path.exists(rp):
             try:
                 r = json.load(open(rp))
@@ -212,9 +261,9 @@ def main():
                 how="seedtool.py confirm: patch applied in a scratch worktree of /repo, `go build ./...`, full existing suite (`go test -vet=off -count=1 ./...`), demo with the patch, patch reverted, demo again" + (" (demo under -race)" if pid == "C18" else ""),
                 suite_passes_with_patch=c.get("suite_rc") == 0, demo_fails_with_patch=c.get("demo_rc_with") != 0, demo_passes_without_patch=c.get("demo_rc_without") == 0,
                 demo_dir=c.get("demo_dir")),
-            checks_run=("quick tier of the target check (and of the neighbouring checks listed) against a scratch worktree with the patch applied (seedtool.py run, VERIF_REPO)" if (round2 or round3) else "quick tier of every check against a scratch worktree with the patch applied (seedtool.py run, VERIF_REPO)"),
-            missed_at_first=(key in MISSED_FIRST_2) if round2 else (key in missed3) if round3 else None,
-            round=3 if round3 else 2 if round2 else 1,
+            checks_run=("quick tier of the target check (and of the neighbouring checks listed) against a scratch worktree with the patch applied (seedtool.py run, VERIF_REPO)" if (round2 or round3 or round4) else "quick tier of every check against a scratch worktree with the patch applied (seedtool.py run, VERIF_REPO)"),
+            missed_at_first=(key in MISSED_FIRST_2) if round2 else (key in missed3) if round3 else (key in MISSED_FIRST_4) if round4 else None,
+            round=4 if round4 else 3 if round3 else 2 if round2 else 1,
             caught_by=sorted(caught), first_report=detail.get(pid) or (detail[sorted(detail)[0]] if detail else ""),
             not_reporting=sorted(missed))
         json.dump(meta, open(os.path.join(dst, "meta.json"), "w"), indent=1)
